@@ -105,7 +105,7 @@ fn run_deep(ctx: &Ctx, lg_k: u8, bound: usize, stride1: usize, stride2: usize, f
                 } else {
                     d.offer_light(p)
                 };
-                if !vs.is_empty() {
+                let mk_ops = || -> Vec<u32> {
                     let mut ops = vec![];
                     let mut ti = 0;
                     for (i, &r) in run.iter().enumerate().take(pos + 1) {
@@ -120,12 +120,15 @@ fn run_deep(ctx: &Ctx, lg_k: u8, bound: usize, stride1: usize, stride2: usize, f
                     if ops.last() != Some(&p) {
                         ops.push(p);
                     }
-                    if cpcm::report(ctx, vs, lg_k, &ops) {
+                    ops
+                };
+                if !vs.is_empty() {
+                    if cpcm::report(ctx, vs, lg_k, &mk_ops()) {
                         return false;
                     }
                 }
-                if full {
-                    obs(ctx, d, &|| json!({"kind":"cpc_run","lg_k":lg_k,"run":rname,"pos":pos,"deviations":trace}));
+                if full && (trace.is_empty() || trace.last().map(|t| t.0) == Some(pos)) {
+                    obs(ctx, d, &|| cpcm::replay_json(lg_k, &mk_ops()));
                 }
                 true
             },
@@ -211,7 +214,6 @@ fn run_small(ctx: &Ctx, lg_k: u8, depth: usize, obs: &Observer) {
                         return Step::Stop;
                     }
                 }
-                obs(ctx, &n, &|| cpcm::replay_json(lg_k, &ops));
                 Step::Next(n)
             },
             |d: &Duo| d.r.m.clone(),
@@ -222,6 +224,9 @@ fn run_small(ctx: &Ctx, lg_k: u8, depth: usize, obs: &Observer) {
                     &format!("lg_k={lg_k}: same pair set in two orders gives different matrices"),
                     json!({"kind":"cpc_two_orders","lg_k":lg_k,"prefix_len":c,"order_a":p0,"order_b":p1}),
                 );
+            },
+            |d: &Duo, path: &[u16]| {
+                obs(ctx, d, &|| cpcm::replay_json(lg_k, &prefix.iter().copied().chain(path.iter().map(|&i| alphabet[i as usize])).collect::<Vec<u32>>()));
             },
         );
         ctx.add_states(stats.states);
@@ -234,6 +239,24 @@ fn run_small(ctx: &Ctx, lg_k: u8, depth: usize, obs: &Observer) {
 }
 
 pub fn explore(ctx: &Ctx, obs: &Observer) {
+    if ctx.reduced {
+        let t = ctx.tier;
+        let jobs: Vec<Box<dyn Fn() + Sync + Send>> = vec![
+            Box::new(|| run_deep(ctx, 4, 1, t.pick(64, 16), 1, 1, usize::MAX, obs)),
+            Box::new(|| run_small(ctx, 4, t.pick(2, 3), obs)),
+            Box::new(|| run_deep(ctx, 5, 1, t.pick(256, 64), 1, 1, usize::MAX, obs)),
+            Box::new(|| run_deep(ctx, 6, 0, 1, 1, t.pick(4, 1), usize::MAX, obs)),
+            Box::new(|| run_deep(ctx, 8, 0, 1, 1, t.pick(64, 16), usize::MAX, obs)),
+            Box::new(move || {
+                if t == Tier::Thorough {
+                    run_deep(ctx, 10, 0, 1, 1, 256, usize::MAX, obs);
+                    run_deep(ctx, 12, 0, 1, 1, 4096, usize::MAX, obs);
+                }
+            }),
+        ];
+        jobs.par_iter().for_each(|j| j());
+        return;
+    }
     match ctx.tier {
         Tier::Quick => {
             let jobs: Vec<Box<dyn Fn() + Sync + Send>> = vec![
